@@ -1,4 +1,5 @@
 import LcModel.Prove.LemmasC10
+import LcModel.Cbmt.Witness
 import LcModel.Mmr.NoOverflow
 /-!
 # C10 — no light-client handler aborts on peer-supplied input
@@ -272,6 +273,23 @@ theorem merge_aborts_without_the_bound :
     Mmr.merge { (default : Mmr.Digest) with td := U256_MAX } { (default : Mmr.Digest) with td := 1 }
       = .error (.panic (.overflow 901)) := by
   rfl
+
+
+/-! ## the transactions Merkle proof of `SendTransactionsProof` -/
+
+/-- **the check of a filtered block never aborts**, whatever indices, lemmas and transactions the
+peer sends (`merkle-cbt` computes `index + 1` on `u32`; the guard of the repository refuses the
+index 2^32 - 1 and every index list the loop would not consume completely). -/
+theorem filtered_block_check_no_abort (troot witnessesRoot : Cbmt.T) (indices : List Nat)
+    (lemmas txHashes : List Cbmt.T) :
+    ∃ b, Cbmt.checkFilteredBlock troot witnessesRoot indices lemmas txHashes = .ok b :=
+  Cbmt.checkFilteredBlock_no_abort troot witnessesRoot indices lemmas txHashes
+
+/-- witness of the abort repaired by fb17202: the index 2^32 - 1 in front of another one -/
+theorem witness_merkle_index_max :
+    Cbmt.checkFilteredBlockCfg false Cbmt.Witness.troot Cbmt.Witness.wroot [3, U32_MAX] []
+      [Cbmt.Witness.x, Cbmt.Witness.c] = .error (.overflow 951) :=
+  Cbmt.Witness.old_check_aborts
 
 
 end C10
